@@ -12,9 +12,11 @@ RULE = ("cases = TLC-enumerated identity hashes (zero, around q, all ones, flag 
         "distinct = (hash class, master class, length, configuration)")
 
 def key_of(ev, labels):
+    diag = [l for l in labels if l.startswith("diag.")]
     labels = [l for l in labels if not l.startswith("diag.")]
     if labels == ["identity-not-at-infinity"]:
-        return "lq.identity-at-infinity:idhash=%s" % ("zero" if not any(ev.get("idhash", [1])) else "other")
+        # identified by the route: the try-and-increment point computed by the specification from the hash is (0, +-2)
+        return "lq.identity-at-infinity:tai-x=%s" % ("zero" if "diag.tai-x-nonzero" in diag else "other")
     return "lq.run:%s:%s:%s" % (ev.get("cfg"), ev.get("len"), "+".join(labels))
 
 def class_of(ev):
@@ -31,8 +33,7 @@ def run(tier):
         out = os.path.join(sc, "lq.%s.trace.ndjson" % cfg)
         run.drive(LQ, cfg, ["replay", cases, out]); traces.append(out)
     fails = run.validate(LQ, traces, timeout=3000)
-    fails = [(e, [x for x in l if not x.startswith("diag.")]) for e, l in fails]
-    fails = [(e, l) for e, l in fails if l]
+    fails = [(e, l) for e, l in fails if [x for x in l if not x.startswith("diag.")]]
     run.count_classes(traces, class_of)
     def confirm(ev, labels):
         try: return bool([x for x in rerun(run, LQ, ev) if not x.startswith("diag.")])
